@@ -11,7 +11,10 @@ EXPLANATION = (
     "rollback routine removes exactly the versions created by the rolled-back transaction; (R2) in Session::commit "
     "nothing with a write effect on the stores precedes the success of validation; (R3) every failure exit of "
     "validation passes through the discard routines; (R4) a dropped Session rolls back (Drop impl reaching the "
-    "rollback routines); (R5) TxInfo.state only moves Active->Committed/Aborted. It does not run transactions.")
+    "rollback routines); (R5) TxInfo.state only moves Active->Committed/Aborted; (R6) the RDF transaction buffer is applied "
+    "in issue order (no reordering combinator between the buffer and the apply loop); (R7) the session's direct mutators "
+    "create versions tagged with the context of get_transaction_context; (R1r) RDF operators touch the committed triple set "
+    "directly only when no transaction is open. It does not run transactions.")
 ASSUMPTIONS = [
     "cell classification table in rules/common.py (allocators and advisory statistics are exempt from rollback coverage)",
     "virtual calls fan out to every implementation; an operator's own effects exclude its child operators",
